@@ -29,6 +29,9 @@ class Mode:
         if v == float("-inf") and getattr(self, "neg_inf_sentinel", False):
             # -inf as a distinguished real constant: contracts using it state that every other value is greater
             return z3.Real("NINF")
+        if v != v and getattr(self, "nan_sentinel", False):
+            # NaN as an opaque real constant: only ever returned / stored, never compared by the verified code
+            return z3.Real("NAN")
         if v == float("inf") or v == float("-inf") or v != v:
             raise Unsupported(f"non-finite literal {v} in real mode")
         if isinstance(v, float):
